@@ -105,6 +105,12 @@ class Inst:
             return self.attrs[attr]
         m = self.model.find_method(self.pe_cls, attr)
         if m is not None:
+            decos = {ast.unparse(d).split('.')[-1] for d in m.node.decorator_list}
+            if decos & {'property', 'cached_property'}:
+                kind, val, _ = pe._run(m, {m.pos_params[0]: self}, None, 1)
+                if kind == 'raise':
+                    raise Raised(val)
+                return val
             return Bound(m, self, '%s.%s' % (self.text, attr))
         # class-level constants
         for c in self.model.mro(self.pe_cls):
